@@ -246,15 +246,65 @@ def check_flags(cx, chk, g):
     b = cx.body(cg, ps[0])
     variants = [v["name"] for v in adt[0]["variants"]]
     got = {v: set() for v in variants}
-    for i in sorted(b.reach):
-        for st in b.blocks[i]["stmts"]:
-            if st["k"] == "assign" and st["place"]["p"] and st["place"]["p"][-1]["k"] == "field" and (st["place"]["p"][-1].get("owner") or "").endswith("RuleFlags"):
-                val = norm(b.expr_rv(st["rv"]))
-                d = [v for (e, v, dd) in b.atoms(i) if e[0] == "discr" and isinstance(v, int)]
-                if d and val == ("const", "bool", True):
-                    got[variants[d[-1]]].add(st["place"]["p"][-1]["name"])
-                elif val != ("const", "bool", False):
-                    chk.violation("C12.flags", "odd flag write", "unrecognised write to a rule flag: %s" % mir.show(val), cx.site(b, i))
+    # read off the semantic summary: either a loop over the directives whose trips set fields of the flags value (a trip's
+    # directive variant -> the fields it sets to true), or a flags literal whose fields are `directives.iter().any(|d| matches!(..))`
+    from .. import sem
+    recognised = False
+    try:
+        S = sem.Sem(cx, cg, max_leaves=2000)
+        sm = S.summarize(ps[0])
+    except sem.SemLimit:
+        sm = None
+    if sm is not None and sm.loopbacks:
+        recognised = True
+        for lb in sm.loopbacks:
+            ks = [(a_, v_) for (a_, v_) in lb.assume if a_[0] == "discr" and isinstance(v_, int) and any(is_call(s_, "next") for s_ in walk(a_))]
+            if len(ks) < 1:
+                recognised = False
+                continue
+            k = [v_ for (a_, v_) in ks if not is_call(a_[1], "next")]
+            if not k:
+                continue
+            kv = k[-1]
+            for (l_, nv) in (lb.ret[2] if lb.ret is not None else ()):
+                x = nv
+                while x[0] == "upd":
+                    if x[3] == ("const", "bool", True):
+                        if 0 <= kv < len(variants):
+                            got[variants[kv]].add(x[2])
+                    elif x[3] != ("const", "bool", False) and x[2] in ("string", "no_skip_ws", "export", "position", "memoize", "left_recursive"):
+                        chk.violation("C12.flags", "odd flag write", "unrecognised write to a rule flag: %s" % mir.show(x[3])[:80], cx.site(b))
+                    x = x[1]
+    elif sm is not None:
+        rets = [l for l in sm.leaves if l.kind == "return"]
+        if len(rets) == 1 and rets[0].ret is not None and rets[0].ret[0] == "agg" and rets[0].ret[1].endswith("RuleFlags"):
+            recognised = True
+            for (fname, fv) in rets[0].ret[3]:
+                if fv[0] == "const":
+                    continue
+                clo = None
+                if is_call(fv, "any") and len(fv[2]) == 2 and any(s_[0] == "field" and s_[2] == "directives" for s_ in walk(fv[2][0])):
+                    clo = fv[2][1]
+                if clo is None or clo[0] != "closure":
+                    recognised = False
+                    continue
+                csm = S.summarize(clo[1])
+                for cl in (csm.leaves if csm is not None else []):
+                    if cl.ret == ("const", "bool", True):
+                        for (a_, v_) in cl.assume:
+                            if a_[0] == "discr" and isinstance(v_, int) and 0 <= v_ < len(variants):
+                                got[variants[v_]].add(fname)
+    if not recognised:
+        # structural fallback: field writes under a match on the directive
+        for i in sorted(b.reach):
+            for st in b.blocks[i]["stmts"]:
+                if st["k"] == "assign" and st["place"]["p"] and st["place"]["p"][-1]["k"] == "field" and (st["place"]["p"][-1].get("owner") or "").endswith("RuleFlags"):
+                    val = norm(b.expr_rv(st["rv"]))
+                    d = [v for (e, v, dd) in b.atoms(i) if e[0] == "discr" and isinstance(v, int)]
+                    if d and val == ("const", "bool", True):
+                        got[variants[d[-1]]].add(st["place"]["p"][-1]["name"])
+                    elif val != ("const", "bool", False):
+                        chk.violation("C12.flags", "odd flag write", "unrecognised write to a rule flag: %s" % mir.show(val), cx.site(b, i))
     probs = []
     for v in variants:
         lit = rule_literal(g, v)
